@@ -3,6 +3,7 @@ package main
 import (
 	"fmt"
 	"reflect"
+	"runtime"
 	"sync"
 
 	"google.golang.org/protobuf/encoding/prototext"
@@ -73,7 +74,7 @@ func (t *tracker) changed() []*snap {
 		if s.dead {
 			continue
 		}
-		if !proto.Equal(s.ptr, s.copy) {
+		if !safeEqual(s.ptr, s.copy) {
 			s.dead = true
 			out = append(out, s)
 		}
@@ -81,10 +82,42 @@ func (t *tracker) changed() []*snap {
 	return out
 }
 
-func txt(m proto.Message) string {
+// safeEqual is proto.Equal that survives a message being written while it is compared (somebody writing to a
+// published message from another goroutine is exactly what the monitor looks for): a panic inside the comparison
+// is retried after the other goroutines have run; a comparison that keeps panicking counts as "changed".
+func safeEqual(a, b proto.Message) bool {
+	for try := 0; try < 3; try++ {
+		eq, ok := false, false
+		func() {
+			defer func() { _ = recover() }()
+			eq = proto.Equal(a, b)
+			ok = true
+		}()
+		if ok {
+			return eq
+		}
+		quiesce(20)
+	}
+	return false
+}
+
+// quiesce yields the processor n times. With GOMAXPROCS(1) (see main) every yield lets all runnable goroutines of
+// the code under test (bus forwarders, filters, mergers, model adapters) run until they block.
+func quiesce(n int) {
+	for i := 0; i < n; i++ {
+		runtime.Gosched()
+	}
+}
+
+func txt(m proto.Message) (out string) {
 	if isNilMsg(m) {
 		return "<nil>"
 	}
+	defer func() {
+		if r := recover(); r != nil {
+			out = fmt.Sprintf("<being written while printed: %v>", r)
+		}
+	}()
 	b, err := prototext.MarshalOptions{Multiline: false}.Marshal(m)
 	if err != nil {
 		return fmt.Sprintf("<%v>", err)
